@@ -26,12 +26,12 @@ def specs(T):
 
     # ---- biweight midvariance ----------------------------------------------
     nums = T.numbers_in(D, 'biweight_midvariance')
-    if len(nums) != 14:
-        raise T.Refuse('biweight_midvariance: expected 14 numeric literals, found %r' % (nums,))
-    one_digit, mad_scale, num_pow, den_coef = nums[0], nums[5], nums[9], nums[12]
+    if len(nums) != 13:
+        raise T.Refuse('biweight_midvariance: expected 13 numeric literals, found %r' % (nums,))
+    one_digit, mad_scale, num_pow, den_coef = nums[0], nums[4], nums[8], nums[11]
     for frag in ('d = a - initial', 'mad = np.median(np.abs(d))', 'w = d / max(c * mad, epsilon)',
                  'mask = np.abs(w) < 1',
-                 'if w[mask].sum() == 0:\n        return mad * %r' % mad_scale,
+                 'if not w[mask].any():\n        return mad * %r' % mad_scale,
                  'n = mask.sum()', 'd_ = d[mask]', 'w_ = (w ** 2)[mask]',
                  'return np.sqrt(n * (d_ ** 2 * (1 - w_) ** %d).sum() / ((1 - w_) * (1 - %d * w_)).sum() ** 2)'
                  % (num_pow, den_coef)):
